@@ -11,7 +11,7 @@ ID = "C14"
 TITLE = "PCovR's projectors form a consistent, nested, orthogonal decomposition"
 TECHNIQUE = 'Hypothesis PBT of the projector identities for every k with a dense eigendecomposition oracle'
 LEVEL = 'Generated-input exploration: for every k from 1 to min(n,m) the algebraic identities (transform, predict, orthogonality and norms, round trip, nesting, loss monotonicity, score, 1-D shapes, new data) are checked. No absence claim: strength = the counted distinct non-trivial cases in the evidence.'
-BUDGET = {"quick": 250, "thorough": 2500}
+BUDGET = {"quick": 250, "thorough": 7000}
 RULE = ("Cases: centred unit-variance X (tall/wide/square, 30% rank-deficient; 3..14, thorough to 36), Y = XB + noise with 1..3 "
         "targets (1-D y when one target and a drawn flag), mixing in {.05,.3,.5,.9,1}, both spaces, Ridge(alpha) without intercept, "
         "new data of 1..6 rows; every k from 1 to min(n,m) is fitted with the full solver.  Oracle: dense eigh of the modified Gram "
